@@ -194,7 +194,7 @@ pub fn script_g2(roto: &str, lits: &[Option<String>]) -> String {
 
 // ------------------------------------------------------------------ registration
 
-fn reg_sink<F: B>(items: &mut Vec<Item>) {
+pub fn reg_sink<F: B>(items: &mut Vec<Item>) {
     let f = Function::new(format!("snk_{}", F::id()), "", vec!["x"], |x: F| log(x.show()), location!())
         .expect("register sink");
     items.push(f.into());
@@ -890,6 +890,10 @@ pub const G3: u8 = 3;
 pub trait Entry: Send + Sync {
     fn info(&self) -> Info;
     fn values(&self, t: Tier) -> usize;
+    /// self-test of the table entry: the edge values are pairwise distinct
+    /// (so that counting them as distinct cases is right and a swapped value
+    /// is visible) and so are their literals
+    fn lint(&self) -> Result<(), String>;
     fn run(&self, group: u8, cx: &mut Cx);
     fn describe(&self, group: u8, t: Tier, sub: u64) -> Value;
 }
@@ -908,6 +912,25 @@ impl<T: B> Entry for E<T> {
     }
     fn values(&self, t: Tier) -> usize {
         T::edges(t).len()
+    }
+    fn lint(&self) -> Result<(), String> {
+        let ev = T::edges(Tier::Quick);
+        let mut seen = std::collections::HashSet::new();
+        let mut lits = std::collections::HashSet::new();
+        if ev.is_empty() {
+            return Err(format!("{}: empty edge list", T::roto()));
+        }
+        for v in &ev {
+            if !seen.insert(v.show()) {
+                return Err(format!("{}: edge value {} occurs twice", T::roto(), v.show()));
+            }
+            if let Some(l) = v.lit() {
+                if !lits.insert(l.clone()) {
+                    return Err(format!("{}: literal {l} occurs twice", T::roto()));
+                }
+            }
+        }
+        Ok(())
     }
     fn run(&self, group: u8, cx: &mut Cx) {
         match group {
